@@ -17,7 +17,9 @@ Theorem reachdef_transfer_sound : forall (e : env ditem) (a : ditem) (en : env n
   (memn x (s_bound (e_scope name en)) = true -> memn x (s_deleted (e_scope name en)) = false ->
    ev name (fun y => y) rd_gen_names en x = true) /\
   (memn x (s_params (e_scope name en)) = true -> ev name (fun y => y) rd_gen_names en x = true) /\
-  rd_join_over_prev = true /\ rd_join_reads_out = true /\ rd_changed_compares_out = true /\ rd_name_load_reads_in = true.
+  rd_join_over_prev = true /\ rd_join_reads_out = true /\ rd_changed_compares_out = true /\ rd_name_load_reads_in = true /\
+  (* with the edge-sensitive join the successors of a for header also depend on its in set *)
+  (rd_edge_sensitive = true -> rd_changed_compares_in = true).
 Proof.
   intros e a en x Ea Ean.
   assert (G : covg true rd_scoped_out = true) by (vm_compute; reflexivity).
